@@ -296,6 +296,16 @@ def c13(res, tier, seed, lib):
         rc, out, err = run_cli(["-m", "off"] + cmd, tty=False)
         res.case("exempt " + " ".join(cmd))
         res.check(rc == 0 and ESC in out, "exempt-commands-emit-sequences-by-design", "cli:" + cmd[0], str(cmd), repr(out[:100]))
+    # text taken from stdin (no TEXT argument): unchanged, with and without -n
+    for text in [b"hello\n", b"hello", b"two\nlines\n", b"\n", b"trailing  \n\n"]:
+        for nflag in ([], ["-n"]):
+            rc, out, err = run_cli(["paint"] + nflag + ["red"], stdin=text, tty=False)
+            want = text + (b"" if nflag else b"\n")
+            inp = "paint %s red < %r" % (" ".join(nflag), text)
+            res.case(inp)
+            res.check(rc == 0 and out == want, "paint-off-byte-for-byte", "cli:paint(stdin)", inp, repr(out))
+            rc, out, err = run_cli(["-f", "paint"] + nflag + ["red"], stdin=text, tty=False)
+            res.check(rc == 0 and out == b"\x1b[38;2;255;0;0m" + text + b"\x1b[0m" + (b"" if nflag else b"\n"), "paint-on-seq-text-reset", "cli:paint(stdin)", "-f " + inp, repr(out))
     # the paint command passes the text through byte for byte when colour is off
     for text in ["plain", "with \x1b[31m inside", "ünï ▀", ""]:
         rc, out, err = run_cli(["paint", "-n", "red", text], tty=False)
@@ -384,8 +394,36 @@ def c17(res, tier, seed, lib):
             g = rnd.randrange(256)
             texts[1] = "rgb(%d,%d,%d)" % (g, g, g); texts[-1] = "hsl(%d,0%%,%.1f%%)" % (rnd.randrange(360), g / 2.55)
         cases.append((texts, rnd.choice(keys + ["random"]), rnd.random() < 0.4, rnd.random() < 0.4, rnd.random() < 0.5))
+    # colours off the 8-bit grid with one decimal (what pastel itself prints), many per list: near-tied keys
+    for _ in range(3 if tier != "thorough" else 40):
+        texts = ["hsl(%d,%.1f%%,%.1f%%)" % (rnd.randrange(360), rnd.uniform(0, 100), rnd.uniform(0, 100)) for _ in range(300)]
+        cases.append((texts, rnd.choice(keys), rnd.random() < 0.3, False, True))
     all_texts = sorted({t for c in cases for t in c[0]})
     info = dict(zip(all_texts, infos(all_texts)))
+    # the keys are the documented quantities: 1000 x (brightness | luminance | LCh hue | LCh chroma), truncated -
+    # evaluated independently by the model for every colour used
+    import struct as _st
+    okt = [t for t in all_texts if info[t].ok]
+    mlum = model_batch(["num luminance " + info[t].wire for t in okt])
+    mbri = model_batch(["num brightness " + info[t].wire for t in okt])
+    mlch = model_batch(["to lch " + info[t].wire for t in okt])
+    def _f(h):
+        return _st.unpack(">d", bytes.fromhex(h))[0]
+    for t, a, b, c in zip(okt, mlum, mbri, mlch):
+        try:
+            vals = {"luminance": _f(a.split(" ")[1]), "brightness": _f(b.split(" ")[1]), "chroma": _f(c.split(" ")[2]), "hue": _f(c.split(" ")[3])}
+        except Exception:
+            res.fail("model-answers", "pastel-model", t, "%s | %s | %s" % (a[:40], b[:40], c[:60]))
+            continue
+        for k, v in vals.items():
+            have = info[t].keys[k]
+            x = 1000.0 * v
+            near_int = abs(x - round(x)) < 1e-6
+            # hue near 0/360 of (nearly) achromatic colours is ill-conditioned: skip those
+            if k == "hue" and vals["chroma"] < 1e-6:
+                continue
+            res.check(have == int(x) or (near_int and abs(have - int(x)) <= 1), "sort-key-is-the-documented-quantity", "sort key " + k, t,
+                      "the library gives key %d, 1000 x %s = %r" % (have, k, x))
     lines, meta = [], []
     for (texts, key, rev, uniq, via_stdin) in cases:
         args = ["sort-by", key] + (["-r"] if rev else []) + (["-u"] if uniq else [])
@@ -522,6 +560,17 @@ def c18(res, tier, seed, lib):
             for b in range(0, 256, step):
                 texts.append("rgb(%d,%d,%d)" % (r, g, b))
     texts += ["rgba(255,0,0,0.5)", "hsl(123,45%,67%)", "rgba(0,255,255,0.99)"]
+    # colours between and around pairs of named colours that lie close together (where a shortcut such
+    # as "the first entry that is near enough" differs from "the nearest entry")
+    ans = harness_query(["closepairs 4.0"])[0]
+    pairs = [tuple(int(x) for x in it.split(":")) for it in ans.split(" ")[1].split(",")] if ans.startswith("ok ") and len(ans) > 3 else []
+    res.tag("close-name-pairs", len(pairs))
+    for (r1, g1, b1, r2, g2, b2) in pairs[: (25 if tier != "thorough" else 200)]:   # closest pairs first
+        for k in range(0, 9):
+            for (dr, dg, db) in [(0, 0, 0), (1, 0, 0), (0, 1, 0), (0, 0, 1), (-1, 0, 0), (0, -1, 0), (1, 1, 0), (-1, 1, 0)]:
+                q = [min(255, max(0, round(a + (b - a) * k / 8.0) + d)) for (a, b, d) in [(r1, r2, dr), (g1, g2, dg), (b1, b2, db)]]
+                texts.append("rgb(%d,%d,%d)" % tuple(q))
+    texts = list(dict.fromkeys(texts))
     # every CSS name (reference: the table `cssNamed` of the Lean model, which the kernel compares with
     # the code's table) parses, in any letter case, to its CSS value
     css = _re.findall(r'\("([a-z]+)",\s*(\d+),\s*(\d+),\s*(\d+)\)', open(os.path.join(VERIF, "lean/Pastel/Model/Named.lean")).read().split("def cssNamed")[1].split("]")[0])
@@ -596,7 +645,7 @@ def c18(res, tier, seed, lib):
 
 def c16(res, tier, seed, lib):
     for strat in ["vivid", "rgb", "gray", "lch_hue"]:
-        for n in [0, 1, 2, 10, 1000]:
+        for n in [0, 1, 2, 10, 1000] + ([65535, 65536, 70000] if strat == "gray" else []):
             rc, out, err = run_cli(["random", "-n", str(n), "-s", strat])
             lines = out.decode().split("\n")
             if lines and lines[-1] == "":
@@ -924,6 +973,21 @@ def c19(res, tier, seed, lib):
                     res.check(rc == 1 and cls == want, "picker-failure-is-a-pastel-error", "cli:colorpicker", "%s %r" % (name, cmd), "rc=%s class=%s msg=%r" % (rc, cls, msg))
     finally:
         shutil.rmtree(d, ignore_errors=True)
+    # `distinct` with the same fixed colour more than once (all colours fixed: quick and deterministic)
+    for argv in [["distinct", "2", "red", "red"], ["distinct", "2", "red", "ff0000"], ["distinct", "3", "red", "blue", "red"],
+                 ["distinct", "3", "#123", "#123", "#123"], ["distinct", "-m", "CIE76", "2", "gray", "grey"], ["distinct", "3", "red", "red"]]:
+        try:
+            rc, out, err = run_cli(argv, timeout=120)
+        except subprocess.TimeoutExpired:
+            res.fail("terminates", "cli:distinct", repr(argv), "no exit within 120 s")
+            continue
+        res.case(repr(argv))
+        generic_oracle(res, argv, rc, out, err)
+        res.check(rc == 0 and out.count(b"\n") == int(argv[-len([a for a in argv[1:] if not a.startswith("-") and not a.isdigit() and a != "CIE76"]) - 1]), "distinct-with-repeated-fixed-colours", "cli:distinct", repr(argv), "rc=%s %r" % (rc, out[:80]))
+    stdin_dups = b"teal\nteal\n"
+    rc, out, err = run_cli(["distinct", "2", "-", "-"], stdin=stdin_dups, timeout=120)
+    res.case("distinct 2 - - < teal teal")
+    generic_oracle(res, ["distinct", "2", "-", "-", "<teal,teal>"], rc, out, err)
     # numerically extreme counts for `pick` (no picker available: must fail cleanly at once)
     for cnt in ["18446744073709551615", "9223372036854775807", "1152921504606846976", "1000000000000", "400000000000000", "0", "1",
                 "18446744073709551616", "-1", "1e3"]:
@@ -1270,6 +1334,31 @@ def c04(res, tier, seed, lib):
             res.disagree(inp, show(impl), show(mo))
 
 
+# ------------------------------------------------------------------------------------------ C15 (CLI)
+
+def c15(res, tier, seed, lib):
+    """`pastel distinct --print-minimal-distance` reports the library's minimum over the eligible
+    entries (a colour that is free or whose neighbour is free), never the distance of two fixed
+    colours.  Deterministic part: with every colour fixed nothing is eligible and the sentinel is
+    printed.  With one free colour next to two fixed colours 0.57 apart, the reported value is the
+    free colour's distance to the nearer of them; the annealer keeps that far above 0.57."""
+    for argv in [["distinct", "2", "ff0000", "fe0101", "--print-minimal-distance"], ["distinct", "-m", "CIE76", "2", "808080", "818181", "--print-minimal-distance"],
+                 ["distinct", "3", "red", "blue", "teal", "--print-minimal-distance"]]:
+        rc, out, err = run_cli(argv, timeout=60)
+        res.case(" ".join(argv))
+        txt = out.decode().strip()
+        res.check(rc == 0 and txt.startswith("17976931348623157") and len(txt) > 300, "minimal-distance-ignores-fixed-pairs", "cli:distinct", " ".join(argv), txt[:40])
+    for argv, pair in [(["distinct", "3", "ff0000", "fe0101", "--print-minimal-distance"], 0.568), (["distinct", "-m", "CIE76", "4", "808080", "818181", "--print-minimal-distance"], 0.5)]:
+        rc, out, err = run_cli(argv, timeout=120)
+        res.case(" ".join(argv))
+        try:
+            v = float(out.decode().strip())
+        except ValueError:
+            v = None
+        # (the free colours end up tens of units away from the fixed pair; 5 x the pair distance is a very wide margin)
+        res.check(rc == 0 and v is not None and v > 5 * pair, "minimal-distance-ignores-fixed-pairs", "cli:distinct", " ".join(argv), "printed %r; the two fixed colours are %.3f apart" % (out[:30], pair))
+
+
 # ------------------------------------------------------------------------------------------ C20
 
 def c20(res, tier, seed, lib):
@@ -1540,6 +1629,54 @@ def c14(res, tier, seed, lib):
             res.check(lines.count(f.hsl) >= need, "distinct-includes-fixed", "cli:distinct", inp, "%s expected %d times in %s" % (f.hsl, need, lines))
         if fixed and lines:
             res.check(lines[0] == finf[0].hsl, "distinct-first-fixed-stays-first", "cli:distinct", inp, lines[0])
+    # farthest-first order under the metric named on the command line (every colour fixed: the
+    # command only rearranges, deterministically)
+    sets = [["gray", "white", "blue", "black"], ["#ff0000", "#00ff00", "#0000ff", "#ffff00", "#00ffff", "#ff00ff"],
+            ["teal", "navy", "olive", "maroon", "purple"], ["#101010", "#202020", "#f0f0f0", "#808080", "#7f7f7f"]]
+    for _ in range(3 if tier != "thorough" else 40):
+        sets.append(["#%02x%02x%02x" % (rnd.randrange(256), rnd.randrange(256), rnd.randrange(256)) for _ in range(rnd.randrange(3, 8))])
+    for cols in sets:
+        for metric in ["CIE76", "CIEDE2000"]:
+            argv = ["distinct", "-m", metric, str(len(cols))] + cols
+            rc, out, err = run_cli(argv, timeout=120)
+            inp = " ".join(argv)
+            res.case(inp)
+            lines = out.decode().split("\n")[:-1]
+            cinf = infos(cols)
+            hs = [c.hsl for c in cinf]
+            if rc != 0 or sorted(lines) != sorted(hs):
+                res.fail("distinct-all-fixed-is-a-permutation", "cli:distinct", inp, "rc=%s %s" % (rc, lines))
+                continue
+            dm = harness_query(["dmat %s %s" % (metric.lower(), " ".join(hexs(c) for c in cols))])[0]
+            if not dm.startswith("ok "):
+                res.fail("reference-distances", "pv-harness dmat", inp, dm[:60])
+                continue
+            k = len(cols)
+            mat = [int(x) for x in dm.split(" ")[1].split(",")]
+            key = lambda a, b: mat[a * k + b]
+            # map printed lines back to input indices (first unused index with that printed form)
+            used, order = set(), []
+            for ln in lines:
+                idx = next(i for i in range(k) if hs[i] == ln and i not in used)
+                used.add(idx); order.append(idx)
+            res.check(order[0] == 0, "distinct-first-fixed-stays-first", "cli:distinct", inp, lines[0])
+            okff = True
+            for pos in range(1, k):
+                mind = lambda j: min(key(j, p) for p in order[:pos])
+                best = max(mind(j) for j in order[pos:])
+                if mind(order[pos]) != best:
+                    okff = False
+                    res.fail("farthest-first-under-the-chosen-metric", "cli:distinct", inp,
+                             "position %d holds %s with minimal key %d; %s would have %d" % (pos, lines[pos], mind(order[pos]), [hs[j] for j in order[pos:] if mind(j) == best][:1], best))
+                    break
+            res.check(okff, "farthest-first-under-the-chosen-metric", "cli:distinct", inp, "")
+    # with every colour fixed no entry is eligible: the reported minimal distance is the sentinel, not
+    # the distance of a pair of fixed colours
+    for argv in [["distinct", "2", "ff0000", "fe0101", "--print-minimal-distance"], ["distinct", "3", "red", "blue", "teal", "--print-minimal-distance"]]:
+        rc, out, err = run_cli(argv, timeout=60)
+        res.case(" ".join(argv))
+        txt = out.decode().strip()
+        res.check(rc == 0 and txt.startswith("17976931348623157") and len(txt) > 300, "minimal-distance-ignores-fixed-pairs", "cli:distinct", " ".join(argv), txt[:40])
     for argv, want in [(["distinct", "1"], 1), (["distinct", "0"], 1), (["distinct", "2", "red", "blue", "green"], 1),
                        (["distinct", "x"], 1), (["distinct", "-m", "nope", "3"], 2)]:
         rc, out, err = run_cli(argv, timeout=60)
@@ -1547,7 +1684,7 @@ def c14(res, tier, seed, lib):
         res.check(rc == want and out == b"", "distinct-validation", "cli:distinct", repr(argv), "rc=%s out=%r" % (rc, out[:60]))
 
 
-RUNNERS = {"C20": c20, "C04": c04, "C01": c01, "C05": c05, "C07": c07, "C09": c09, "C10": c10, "C02": c02, "C06": c06, "C08": c08, "C13": c13, "C14": c14, "C16": c16, "C17": c17, "C18": c18, "C19": c19}
+RUNNERS = {"C20": c20, "C15": c15, "C04": c04, "C01": c01, "C05": c05, "C07": c07, "C09": c09, "C10": c10, "C02": c02, "C06": c06, "C08": c08, "C13": c13, "C14": c14, "C16": c16, "C17": c17, "C18": c18, "C19": c19}
 
 
 def run(prop, tier, seed, lib):
